@@ -2,6 +2,7 @@ import MlModel.Lemmas.Registry
 import MlModel.Lemmas.OwnerExit
 import MlModel.Lemmas.OwnerEnv
 import MlModel.Lemmas.OwnerComposite
+import MlModel.Lemmas.OwnerShared
 /-!
 # C20 — worker liveness and ownership bookkeeping stays consistent
 
@@ -206,6 +207,25 @@ theorem C20_released_on_exit (pw : Owner.Pid → List Owner.Wid) (p : Owner.Pid)
   have := hE.todo [] htodo w hw hl.2
   simp at this
 
+/-- **Released on exit, for a pool that several threads drive.**  Thread `t` is the only thread that *acquires* for pool
+`p`; any number of other threads may drive `p` concurrently with operations that do not acquire (`release_all`,
+`Worker.release`, `idle_workers`, `workers`, `call`, `next_idle_worker(maybe_acquire=False)`, further finalisers) and
+everything for other pools.  Whenever `t` has just left the `finally: release_all()` of `p`, the pool has no acquired
+worker.  (Strictly stronger than `C20_released_on_exit`, whose hypothesis implies this one.  If another thread of the same
+pool acquires concurrently the statement is false — and should be: `Witness.C20_exit_shared_acquirer`.) -/
+theorem C20_released_on_exit_shared (pw : Owner.Pid → List Owner.Wid) (p : Owner.Pid) (t : Owner.Tid)
+    (c0 c : Owner.Cfg) (h0 : Owner.Init c0)
+    (hacq : ∀ t', t' ≠ t → ∀ op ∈ (c0.T t').script, op.pool = p → op.mayAcq = false)
+    (hr : Owner.Reach pw c0 c) (hidle : (c.T t).cur = none) (hex : (c.T t).exited = some p) :
+    Owner.acquiredWorkers pw c.W p = [] := by
+  have hE := Owner.ExitInvS_reach (p := p) (t := t) h0 hacq hr
+  have htodo : (c.T t).todo p = some [] := by simp [Owner.Thread.todo, hidle, hex]
+  simp only [Owner.acquiredWorkers, List.filter_eq_nil_iff]
+  intro w hw hl
+  simp only [Owner.isLocked, Bool.and_eq_true, beq_iff_eq] at hl
+  have := hE.todo [] htodo w hw hl.2
+  simp at this
+
 /-- **Released on exit, for every liveness assignment.**  The same statement over explicit schedules:
 every entry of `sched` carries the capacity/liveness assignment `u : Wid → Bool` in force at that
 step, chosen adversarially and independently at every step — workers may die or revive before,
@@ -303,6 +323,16 @@ theorem C20_sched_released_on_exit (pw : Owner.Pid → List Owner.Wid) (p : Owne
     (x.base.T t).cur = none → (x.base.T t).exited = some p → Owner.acquiredWorkers pw x.base.W p = [] := by
   intro x hidle hex
   exact C20_released_on_exit pw p t x0.base x.base h0 hsole
+    (OwnerEnv.XReach_base (OwnerEnv.XReach_xrun ts x0 .refl)) hidle hex
+
+/-- **Released on exit under every schedule, pool shared by several threads** (`t` the only acquirer for `p`). -/
+theorem C20_sched_released_on_exit_shared (pw : Owner.Pid → List Owner.Wid) (p : Owner.Pid) (t : Owner.Tid)
+    (x0 : OwnerEnv.X) (h0 : Owner.Init x0.base)
+    (hacq : ∀ t', t' ≠ t → ∀ op ∈ (x0.base.T t').script, op.pool = p → op.mayAcq = false) (ts : List Owner.Tid) :
+    let x := OwnerEnv.xrun pw x0 ts
+    (x.base.T t).cur = none → (x.base.T t).exited = some p → Owner.acquiredWorkers pw x.base.W p = [] := by
+  intro x hidle hex
+  exact C20_released_on_exit_shared pw p t x0.base x.base h0 hacq
     (OwnerEnv.XReach_base (OwnerEnv.XReach_xrun ts x0 .refl)) hidle hex
 
 /-- **Dead stays dead, under every schedule.**  Once the entry of `a` is dead, along any interleaving of
@@ -408,20 +438,20 @@ theorem C20_sched_not_started_only_before_try (pw : Owner.Pid → List Owner.Wid
     (x'.env.ctl t = .idle ∧ x'.env.outs t = x.env.outs t ++ [.notStarted]) :=
   OwnerEnv.xstep_pretry hcur hpre h
 
-/-- **Released when `run` / `call_and_wait` returns or raises, under every schedule.**  Pool `p` is driven by thread `t`
-alone.  In any reachable configuration of the product in which `t` is inside the finaliser of a composite operation of `p`
+/-- **Released when `run` / `call_and_wait` returns or raises, under every schedule.**  Thread `t` is the only thread that
+acquires for pool `p` (others may release, call, poll `idle_workers` for it).  In any reachable configuration of the product in which `t` is inside the finaliser of a composite operation of `p`
 (`Ctl.fin p o`: `o` is what the operation will return or raise), the step that ends the operation — the controller becomes
 idle — leaves pool `p` without any acquired worker, and records `o`.  Deaths, revivals, heartbeats, clock ticks past the
 deadlines, late / failed / missing replies interleaved anywhere make no difference. -/
 theorem C20_sched_composite_released (pw : Owner.Pid → List Owner.Wid) (p : Owner.Pid) (t : Owner.Tid)
     (x0 x x' : OwnerEnv.X) (h0 : Owner.Init x0.base)
-    (hsole : ∀ t', t' ≠ t → ∀ op ∈ (x0.base.T t').script, op.pool ≠ p)
+    (hacq : ∀ t', t' ≠ t → ∀ op ∈ (x0.base.T t').script, op.pool = p → op.mayAcq = false)
     (hr : OwnerEnv.XReach pw x0 x) (o : OwnerEnv.Outc) (cl : Owner.Call) (rest : List Owner.Wid)
     (hctl : x.env.ctl t = .fin p o) (hcur : (x.base.T t).cur = some (cl, .relAll p rest true))
     (hs : OwnerEnv.xstep? pw x t = some x') (hidle : x'.env.ctl t = .idle) :
     Owner.acquiredWorkers pw x'.base.W p = [] ∧ x'.env.outs t = x.env.outs t ++ [o] := by
   obtain ⟨hnone, hex, hout⟩ := OwnerEnv.xstep_fin_exit hctl hcur hs hidle
-  exact ⟨C20_released_on_exit pw p t x0.base x'.base h0 hsole
+  exact ⟨C20_released_on_exit_shared pw p t x0.base x'.base h0 hacq
     (OwnerEnv.XReach_base (OwnerEnv.XReach.step hr hs)) hnone hex, hout⟩
 
 /-! ## Non-vacuity: the hypotheses are satisfiable and the conclusions are reached -/
@@ -487,6 +517,10 @@ example : ((OwnerEnv.xrun pw1 xcfg ([1, 1, 1] ++ List.replicate 40 0)).base.T 0)
 /-- no step of that schedule registers worker 0 (hypothesis of `C20_sched_dead_stays_dead`) -/
 example : OwnerEnv.NoRegister pw1 0 (OwnerEnv.xrun pw1 xcfg [1, 1, 1]) [0, 0, 0, 1] := by
   simp only [OwnerEnv.NoRegister]; decide
+
+/-- hypothesis of `C20_released_on_exit_shared`: thread 1 drives the same pool 0 with non-acquiring operations -/
+example : ∀ op ∈ ([.releaseAll 0 [], .idleWorkers 0, .callW 0 1, .nextIdle 0 [0, 1] false, .acquireAll 1 [0] 0] : List Op),
+    op.pool = 0 → op.mayAcq = false := by decide
 
 /-! composite operation: thread 0 = `pool.run(task)` for pool 0 over worker 0 (alive), with the script of pieces its
 controller will ask for; thread 1 = the transport delivering the reply.  Thread 0 runs until it waits for the reply
